@@ -1134,6 +1134,9 @@ impl BitVectorMut {
             return;
         }
 
+        // SAFETY: the asserts above guarantee that the range is within the bounds
+        let overwritten = unsafe { self.get_bits_unchecked(index, len) };
+        self.n_ones -= overwritten.count_ones() as usize;
         self.n_ones += bits.count_ones() as usize;
 
         // let mask = if len == 64 {
